@@ -22,6 +22,7 @@ import (
 	"sort"
 	"strconv"
 	"strings"
+	"sync"
 
 	secp "github.com/ModChain/secp256k1"
 )
@@ -102,6 +103,10 @@ func be32(v *big.Int) []byte {
 }
 
 // interesting 256-bit values around the scalar/field boundaries
+// historyMu guards the harness's own long-lived objects (reuseSignKey, reusePeer, reusePriv): the goroutines of the
+// concurrent run (C17) execute ordinary operations, and the object-history probes inside them share these objects
+var historyMu sync.Mutex
+
 func (h *H) boundaryInts() []*big.Int {
 	one := big.NewInt(1)
 	two256 := new(big.Int).Lsh(one, 256)
